@@ -297,7 +297,7 @@ func c17EmptyKey(r *core.Run) {
 					nonEmpty = true
 				}
 			}
-			key := "tagToField: ttf[" + core.Expr(mu.Key) + "]"
+			key := "tagToField: ttf[" + core.KExpr(mu.Key) + "]"
 			r.Check(nonEmpty, "R17.4", key, mu.Pos(), "guarded by key != \"\"", "a field is registered under a key that can be the empty string (a missing tag splits into one empty name): the DSN `=x` is then accepted as a key that matches a field")
 		}
 	}
